@@ -45,13 +45,13 @@ type FCase struct {
 }
 
 const (
-	faultConv     = iota // the setting is unpacked into a field of some other type
-	faultValidate        // the setting is unpacked into a field of its own type with a validate tag
-	faultRequired        // the object at the position lacks a required setting
-	faultArrSize         // the list at the position is unpacked into an array of another length
-	faultRef             // the setting is replaced by a reference (missing, cyclic, failing, of another type); needs VarExp
-	faultGetter          // the setting is read with a typed getter of another type (Bool, Int, Uint, Float, String, Child, CountField)
-	faultRefGetter       // faultRef, read with a typed getter
+	faultConv      = iota // the setting is unpacked into a field of some other type
+	faultValidate         // the setting is unpacked into a field of its own type with a validate tag
+	faultRequired         // the object at the position lacks a required setting
+	faultArrSize          // the list at the position is unpacked into an array of another length
+	faultRef              // the setting is replaced by a reference (missing, cyclic, failing, of another type); needs VarExp
+	faultGetter           // the setting is read with a typed getter of another type (Bool, Int, Uint, Float, String, Child, CountField)
+	faultRefGetter        // faultRef, read with a typed getter
 	nFaultKinds
 )
 
@@ -85,11 +85,7 @@ func getter(c *ucfg.Config, g int, name string, idx int, opts []ucfg.Option) (st
 		d, err := uc.Dump(v, opts...)
 		return canon.Show(d), err
 	}
-	if idx >= 0 {
-		// CountField takes no index: count the elements of the list instead
-		v, err := c.CountField(name, opts...)
-		return fmt.Sprint(v), err
-	}
+	// CountField takes no index: with one, the enclosing list is counted
 	v, err := c.CountField(name, opts...)
 	return fmt.Sprint(v), err
 }
@@ -512,6 +508,9 @@ func planFault(c FCase, r *runlog.R) (*faultPlan, bool) {
 		if last := p.path[len(p.path)-1]; last.idx >= 0 && (!pathSep || c.Wrap&1 == 1) {
 			pl.name, pl.idx = refPath(p.path[:len(p.path)-1]), last.idx
 		}
+		if segs := len(p.path); pl.getter == 6 && (pl.idx < 0 && segs > 1 || segs > 2) {
+			pl.getter = 4 // CountField looks up a top-level name only (it does not split paths): String instead
+		}
 		pl.classes = append(pl.classes, "getter "+getterNames[pl.getter])
 	}
 	switch kind {
@@ -601,6 +600,9 @@ func planFault(c FCase, r *runlog.R) (*faultPlan, bool) {
 		parent.Vals[slot] = gen.Str(text)
 		pl.doc = doc
 		pl.what = fmt.Sprintf("the setting at %s replaced by the reference %q (%s) and unpacked into %s", pathString(p.path), text, refFormNames[form], leaf.name)
+		if isGetter {
+			pl.what = fmt.Sprintf("the setting at %s replaced by the reference %q (%s) and read with %s(%q, %d)", pathString(p.path), text, refFormNames[form], getterNames[pl.getter], pl.name, pl.idx)
+		}
 		pl.classes = append(pl.classes, "reference "+refFormNames[form])
 		// D56: a failing reference unpacked into a slice or array is reported with the
 		// metadata of the enclosing object, and the root object has none
@@ -610,7 +612,9 @@ func planFault(c FCase, r *runlog.R) (*faultPlan, bool) {
 				pl.openFinding = true
 			}
 		}
-		if c.Generic {
+		if isGetter {
+			pl.classes = append(pl.classes, "reference read with a getter")
+		} else if c.Generic {
 			pl.classes = append(pl.classes, "reference into a generic target (whole document)")
 		} else if leaf.t == tIface || leaf.name == "[]interface{}" || leaf.name == "map[string]interface{}" {
 			pl.classes = append(pl.classes, "reference into a generic target (field)")
@@ -618,7 +622,9 @@ func planFault(c FCase, r *runlog.R) (*faultPlan, bool) {
 			pl.classes = append(pl.classes, "reference into a typed target")
 		}
 	}
-	if kind == faultRef && c.Generic {
+	if isGetter {
+		pl.target = tIface
+	} else if kind == faultRef && c.Generic {
 		if c.Doc.K == "obj" {
 			pl.target = reflect.TypeOf(map[string]interface{}(nil))
 		} else {
@@ -635,6 +641,9 @@ func planFault(c FCase, r *runlog.R) (*faultPlan, bool) {
 				pl.classes = append(pl.classes, "path typed with "+s)
 			}
 		}
+	}
+	if isGetter && kind == faultRef {
+		kind = faultRefGetter
 	}
 	pl.classes = append(pl.classes, "kind: "+faultKindNames[kind])
 	switch {
@@ -655,9 +664,8 @@ func planFault(c FCase, r *runlog.R) (*faultPlan, bool) {
 	return pl, true
 }
 
-// openD56: finding D56 is open (its class is constructed away). For development runs against a tree without the
-// repair, VERIF_C18_OPEN=D56 has the same effect without touching known_findings.json.
-func openD56() bool { return runlog.IsOpen("D56") || os.Getenv("VERIF_C18_OPEN") == "D56" }
+// openD56: finding D56 is open (its class is constructed away; strict otherwise).
+func openD56() bool { return runlog.IsOpen("D56") }
 
 func abs(i int) int {
 	if i < 0 {
@@ -696,7 +704,8 @@ func runFault(c FCase, r *runlog.R) error {
 		return nil
 	}
 	kind := ((c.Kind % nFaultKinds) + nFaultKinds) % nFaultKinds
-	if kind == faultRef {
+	isRef := kind == faultRef || kind == faultRefGetter
+	if isRef {
 		c.Opts |= 2
 	}
 	pathSep := c.Opts&1 != 0
@@ -759,7 +768,7 @@ func runFault(c FCase, r *runlog.R) error {
 		// the generic view of both
 		gm, egm := uc.Dump(mem, opts...)
 		gf, egf := uc.Dump(fil, opts...)
-		if kind != faultRef {
+		if !isRef {
 			if egm != nil {
 				return fail(fmt.Errorf("%s.NewConfig + generic Unpack fails on a document without references: %v", l.name, egm))
 			}
@@ -771,6 +780,19 @@ func runFault(c FCase, r *runlog.R) error {
 			return fail(fmt.Errorf("%s: file and in-memory config unpack to different generic data:\n memory %s\n file   %s", l.name, describe(gm, nil), describe(gf, nil)))
 		}
 		// the fault
+		if pl.getter >= 0 {
+			var vm, vf string
+			um := uc.Safe(getterNames[pl.getter], func() (err error) { vm, err = getter(mem, pl.getter, pl.name, pl.idx, opts); return })
+			uf := uc.Safe(getterNames[pl.getter], func() (err error) { vf, err = getter(fil, pl.getter, pl.name, pl.idx, opts); return })
+			if err := checkSourced(l.name+": "+pl.what, file, um, uf, must); err != nil {
+				return fail(err)
+			}
+			if um == nil && vm != vf {
+				return fail(fmt.Errorf("%s: %s: file and in-memory config give different values:\n memory %s\n file   %s", l.name, pl.what, vm, vf))
+			}
+			reported[i] = um != nil
+			continue
+		}
 		tm, tf := reflect.New(pl.target), reflect.New(pl.target)
 		um := uc.Safe("Unpack", func() error { return mem.Unpack(tm.Interface(), opts...) })
 		uf := uc.Safe("Unpack", func() error { return fil.Unpack(tf.Interface(), opts...) })
@@ -915,7 +937,7 @@ func genFault(t *rapid.T) FCase {
 	c := FCase{
 		Style:   pick(t, 4, "style"),
 		Opts:    rapid.SampledFrom([]int{1, 1, 1, 3, 3, 0, 2}).Draw(t, "opts"),
-		Kind:    rapid.SampledFrom([]int{faultConv, faultConv, faultValidate, faultRequired, faultRequired, faultArrSize, faultRef, faultRef, faultRef}).Draw(t, "kind"),
+		Kind:    rapid.SampledFrom([]int{faultConv, faultConv, faultValidate, faultRequired, faultRequired, faultArrSize, faultRef, faultRef, faultRef, faultGetter, faultRefGetter}).Draw(t, "kind"),
 		Pos:     pick(t, 512, "pos"),
 		Leaf:    pick(t, len(leafSpecs), "leaf"),
 		Var:     pick(t, 72, "var"),
@@ -937,7 +959,7 @@ func genFault(t *rapid.T) FCase {
 
 var subFaults = runlog.Register(&runlog.Sub[FCase]{
 	Name: "faults",
-	Rule: "A settings tree (top-level object or list, depth <= 4/5, width <= 3/4; keys from a pool of plain and YAML-significant names; strings, small integers, fractions, booleans, nulls, empty containers) is written as JSON in one of 4 styles and - when PathSep(\".\") is among the options - with every non-empty container spelled either nested or joined into dotted keys (\"a.b.c\", \"a.0.b\"; per container, so documents are nested, dotted or mixed), then loaded by yaml/json/hjson NewConfig and NewConfigWithFile with the case's options (none, PathSep, VarExp, both). One fault is injected at a position drawn from all settings of the logical tree, including objects and lists that exist only because a dotted key was split: (conversion) the setting unpacked into one of 26 target types (numbers, bool, string, Duration, *Regexp, slices, arrays, maps incl. map[int]int, structs, chan, interface{}, pointers, application types whose Unpack / StringUnpacker / ConfigUnpacker / Validate method rejects everything); (validator) into its own type under one of 9 validate tags; (required) the object at the position unpacked into a struct with a required/nonzero setting it lacks; (array size) the list unpacked into an array of another length; (reference, VarExp) the setting replaced by a reference that is missing, refers to itself (alone or spliced into text), to a self-referencing setting, back through a second setting, fails with ${x:?msg}, leads through a chain to a missing one, or names a string setting - unpacked into a typed target, an interface{} field or with the whole document into map[string]interface{}/[]interface{}. The path to the position is typed with single-field structs and slices, or maps and arrays. Oracle (differential, no model of the conversions): for each front-end the config loaded from memory and the one loaded from file agree on loading, on the generic view and on the fault: both succeed with deeply equal values or both fail, the file-side message minus \" (source:'<file>')\" equals the memory-side message, the memory side names no source, the file side names no other source, and names its file at least once unless the error is raised for the root object (required setting missing at the top level, array size of a top-level list; the root config is created by New and filled by Merge, it has no source of its own). The three front-ends agree on whether the fault is reported. Discarded: documents a third-party decoder rejects, cases without an eligible position. Non-trivial: an error was reported and the source demanded. Distinct: hash of the whole case.",
+	Rule: "A settings tree (top-level object or list, depth <= 4/5, width <= 3/4; keys from a pool of plain and YAML-significant names; strings, small integers, fractions, booleans, nulls, empty containers) is written as JSON in one of 4 styles and - when PathSep(\".\") is among the options - with every non-empty container spelled either nested or joined into dotted keys (\"a.b.c\", \"a.0.b\"; per container, so documents are nested, dotted or mixed), then loaded by yaml/json/hjson NewConfig and NewConfigWithFile with the case's options (none, PathSep, VarExp, both). One fault is injected at a position drawn from all settings of the logical tree, including objects and lists that exist only because a dotted key was split: (conversion) the setting unpacked into one of 26 target types (numbers, bool, string, Duration, *Regexp, slices, arrays, maps incl. map[int]int, structs, chan, interface{}, pointers, application types whose Unpack / StringUnpacker / ConfigUnpacker / Validate method rejects everything); (validator) into its own type under one of 9 validate tags; (required) the object at the position unpacked into a struct with a required/nonzero setting it lacks; (array size) the list unpacked into an array of another length; (typed getter) the setting read with Bool/Int/Uint/Float/String/Child/CountField by path or by name and index; (reference, VarExp) the setting replaced by a reference that is missing, refers to itself (alone or spliced into text), to a self-referencing setting, back through a second setting, fails with ${x:?msg}, leads through a chain to a missing one, or names a string setting - unpacked into a typed target, an interface{} field or with the whole document into map[string]interface{}/[]interface{}, or read with a typed getter. The path to the position is typed with single-field structs and slices, or maps and arrays. Oracle (differential, no model of the conversions): for each front-end the config loaded from memory and the one loaded from file agree on loading, on the generic view and on the fault: both succeed with deeply equal values or both fail, the file-side message minus \" (source:'<file>')\" equals the memory-side message, the memory side names no source, the file side names no other source, and names its file at least once unless the error is raised for the root object (required setting missing at the top level, array size of a top-level list; the root config is created by New and filled by Merge, it has no source of its own). The three front-ends agree on whether the fault is reported. Discarded: documents a third-party decoder rejects, cases without an eligible position. Non-trivial: an error was reported and the source demanded. Distinct: hash of the whole case.",
 	Gen:  genFault,
 	Run:  runFault,
 	// cyclic references: a changed library may recurse without bound, which kills the worker
